@@ -169,6 +169,21 @@ theorem term_closed : ∀ (t : Term V), t.noFlat = true → ∀ (β : Bnd V) (α
   | call m args t ih => intro hf β α hα hb; simp [evalTerm, termVal, ih hf β α hα hb]
   | flatten id t _ => intro hf; simp [Term.noFlat] at hf
 
+/-- Same, with the agreement only required on the variables of the term. -/
+theorem term_closed_on : ∀ (t : Term V), t.noFlat = true → ∀ (β : Bnd V) (α : Asg V),
+    (∀ v ∈ t.vars, β.lookup v = some (α v)) → evalTerm W D t β = [(β, termVal W α t)] := by
+  intro t
+  induction t with
+  | var v =>
+    intro _ β α hb
+    have := hb v (by simp [Term.vars])
+    simp [evalTerm, this, termVal]
+  | lit c => intro _ β α _; simp [evalTerm, termVal]
+  | attr n t ih => intro hf β α hb; simp [evalTerm, termVal, ih hf β α hb]
+  | index k t ih => intro hf β α hb; simp [evalTerm, termVal, ih hf β α hb]
+  | call m args t ih => intro hf β α hb; simp [evalTerm, termVal, ih hf β α hb]
+  | flatten id t _ => intro hf; simp [Term.noFlat] at hf
+
 /-- The value of a term depends only on the values of its variables. -/
 theorem termVal_congr : ∀ (t : Term V), t.noFlat = true → ∀ (α α' : Asg V),
     (∀ v ∈ t.vars, α v = α' v) → termVal W α t = termVal W α' t := by
